@@ -43,7 +43,7 @@ D(op, lt, f, n, c, names, kids) ==
 RECURSIVE Lower(_)
 Lower(t) ==
     LET op == t.op
-        k == [i \in 1..Len(t.in) |-> Lower(t.in[i])]
+        k == TLCEval([i \in 1..Len(t.in) |-> Lower(t.in[i])])
         lt1 == IF Len(t.in) >= 1 THEN Lt(t.in[1]) ELSE "static"
         lt2 == IF Len(t.in) >= 2 THEN Lt(t.in[2]) ELSE "static"
         S(o, names) == D(o, <<lt1, lt2>>, t.f, t.n, t.c, names, k)
@@ -130,7 +130,7 @@ DInit0(d) ==
       [] OTHER -> <<>>
 
 RECURSIVE DInit(_)
-DInit(d) == [s |-> DInit0(d), kids |-> [i \in 1..Len(d.in) |-> DInit(d.in[i])]]
+DInit(d) == [s |-> DInit0(d), kids |-> TLCEval([i \in 1..Len(d.in) |-> DInit(d.in[i])])]
 
 \* multiset difference cur - prev, keeping the order of cur
 MsDelta(cur, prev) ==
@@ -143,7 +143,7 @@ RedF(f, a, x) == IF f = "maxkey" THEN MaxKeyF(a, x) ELSE ReduceF(f, a, x)
 \* upsert into a table (sequence of <<k, acc>>, keys in first-insertion order)
 Upsert(tab, k, v) ==
     IF \E i \in 1..Len(tab) : tab[i][1] = k
-    THEN [i \in 1..Len(tab) |-> IF tab[i][1] = k THEN <<k, v>> ELSE tab[i]]
+    THEN TLCEval([i \in 1..Len(tab) |-> IF tab[i][1] = k THEN <<k, v>> ELSE tab[i]])
     ELSE Append(tab, <<k, v>>)
 Lookup(tab, k, dflt) ==
     IF \E i \in 1..Len(tab) : tab[i][1] = k
@@ -195,7 +195,7 @@ DOp(d, s, a, B, k, cyc) ==
          [] op = "unique" -> UniqRes(IF st(1) THEN s ELSE <<>>, NewOf(IF st(1) THEN s ELSE <<>>, x))
          [] op = "enumerate" ->
               LET c0 == IF st(1) THEN s ELSE 0
-              IN [out |-> [i \in 1..Len(x) |-> <<c0 + i - 1, x[i]>>], s |-> c0 + Len(x)]
+              IN [out |-> TLCEval([i \in 1..Len(x) |-> <<c0 + i - 1, x[i]>>]), s |-> c0 + Len(x)]
          [] op = "limit" ->
               LET c0 == IF st(1) THEN s ELSE 0
                   take == Min2(Len(x), IF d.n > c0 THEN d.n - c0 ELSE 0)
@@ -239,10 +239,10 @@ DOp(d, s, a, B, k, cyc) ==
          [] op = "reduce_keyed" -> Both(KRedFrom(d.f, IF st(1) THEN s ELSE <<>>, x))
 
 RECURSIVE DStep(_, _, _, _, _)
-DStep3(d, kr, r) == [out |-> r.out, st |-> [s |-> r.s, kids |-> [i \in 1..Len(d.in) |-> kr[i].st]]]
-DStep2(d, st, B, k, cyc, kr) == DStep3(d, kr, DOp(d, st.s, [i \in 1..Len(d.in) |-> kr[i].out], B, k, cyc))
+DStep3(d, kr, r) == [out |-> r.out, st |-> [s |-> r.s, kids |-> TLCEval([i \in 1..Len(d.in) |-> kr[i].st])]]
+DStep2(d, st, B, k, cyc, kr) == DStep3(d, kr, DOp(d, st.s, TLCEval([i \in 1..Len(d.in) |-> kr[i].out]), B, k, cyc))
 DStep(d, st, B, k, cyc) ==
-    DStep2(d, st, B, k, cyc, [i \in 1..Len(d.in) |-> DStep(d.in[i], st.kids[i], B, k, cyc)])
+    DStep2(d, st, B, k, cyc, TLCEval([i \in 1..Len(d.in) |-> DStep(d.in[i], st.kids[i], B, k, cyc)]))
 
 -----------------------------------------------------------------------------
 \* the observed term: a top-level singleton is observed through snapshot -> all_ticks
@@ -252,21 +252,21 @@ ObsTerm(P) == IF P.obs = "snapshot" THEN Node("all_ticks", <<Node("snapshot", <<
 CycNames(P) == DOMAIN P.cycles
 
 \* the lowered program: main term and one term per cycle definition
-LowProg(P) == [main |-> Lower(ObsTerm(P)), cdef |-> [c \in CycNames(P) |-> Lower(P.cycles[c])]]
+LowProg(P) == [main |-> Lower(ObsTerm(P)), cdef |-> TLCEval([c \in CycNames(P) |-> Lower(P.cycles[c])])]
 
 \* whole-program state: main tree, one tree per cycle definition, the deferred buffers
 RunInit(L) == [main |-> DInit(L.main),
-               cdef |-> [c \in DOMAIN L.cdef |-> DInit(L.cdef[c])],
+               cdef |-> TLCEval([c \in DOMAIN L.cdef |-> DInit(L.cdef[c])]),
                cyc |-> [c \in DOMAIN L.cdef |-> <<>>]]
 
 \* one tick: [out, st]
 RunTick2(L, m, cd) ==
     [out |-> m.out,
-     st |-> [main |-> m.st, cdef |-> [c \in DOMAIN L.cdef |-> cd[c].st],
-             cyc |-> [c \in DOMAIN L.cdef |-> cd[c].out]]]
+     st |-> [main |-> m.st, cdef |-> TLCEval([c \in DOMAIN L.cdef |-> cd[c].st]),
+             cyc |-> TLCEval([c \in DOMAIN L.cdef |-> cd[c].out])]]
 RunTick(L, rs, B, k) ==
     RunTick2(L, DStep(L.main, rs.main, B, k, rs.cyc),
-             [c \in DOMAIN L.cdef |-> DStep(L.cdef[c], rs.cdef[c], B, k, rs.cyc)])
+             TLCEval([c \in DOMAIN L.cdef |-> DStep(L.cdef[c], rs.cdef[c], B, k, rs.cyc)]))
 
 RECURSIVE RunFrom(_, _, _, _)
 RunCons(L, B, k, r) == <<r.out>> \o RunFrom(L, r.st, B, k + 1)
@@ -276,5 +276,5 @@ Run(P, B) == RunLow(LowProg(P), B)
 
 \* DFIR operators of the lowered program (for comparison with the generated code)
 RECURSIVE OpNames(_)
-OpNames(d) == d.names \o Cat([i \in 1..Len(d.in) |-> OpNames(d.in[i])])
+OpNames(d) == d.names \o Cat(TLCEval([i \in 1..Len(d.in) |-> OpNames(d.in[i])]))
 =============================================================================
